@@ -27,10 +27,13 @@ theorem good_execute (fuel m : Nat) (s : State) (input : List UInt8) (fault : Op
     | stop => exact good_start h0 (good_change_res _ g (by simp) hd)
     | _ => exact good_start h0 (good_end g hd)
 
-/-- `NumOps` never decreases -/
-theorem numops_monotone (fuel m : Nat) (s : State) (input : List UInt8) (fault : Option String) :
+/-- `NumOps` never decreases, as long as it was not put beyond `MaxOps + 1` from outside (the
+repaired budget test stores `MaxOps + 1` when it fails, so a counter that was set to a larger
+value by the caller is pulled back; without a budget the counter only grows) -/
+theorem numops_monotone (fuel m : Nat) (s : State) (input : List UInt8) (fault : Option String)
+    (hs : 0 < m → s.numOps ≤ m + 1) :
     s.numOps ≤ (execute fuel m s input fault).1.numOps :=
-  (good_execute fuel m s input fault).mono
+  (good_execute fuel m s input fault).mono hs
 
 /-- **with a positive budget `N` the counter never passes `N + 1`**, and whenever the call
 does not end with the budget error it is at most `N` -/
@@ -40,6 +43,72 @@ theorem numops_cap (fuel m : Nat) (s : State) (input : List UInt8) (fault : Opti
     ((execute fuel m s input fault).2 ≠ .err .limit → (execute fuel m s input fault).1.numOps ≤ m) :=
   let c := (good_execute fuel m s input fault).cap hm hs
   ⟨c.2, c.1⟩
+
+/-- **one call, started anywhere up to the cap**: with a positive budget `N`, a call of `Execute`
+on an interpreter whose counter is at most `N + 1` (in particular one whose budget was used up
+by earlier calls) ends with the counter at most `N + 1`: the repaired budget test stores
+`N + 1` instead of counting on.  For every program, read fault and fuel, whatever is returned. -/
+theorem numOps_cap_call (fuel m : Nat) (s : State) (input : List UInt8) (fault : Option String)
+    (hm : 0 < m) (hs : s.numOps ≤ m + 1) :
+    (execute fuel m s input fault).1.numOps ≤ m + 1 :=
+  (good_execute fuel m s input fault).sat hm hs
+
+/-- one `Execute` call of a history: its input, the error its reader ends with, and the model's fuel -/
+structure Call where
+  fuel : Nat
+  input : List UInt8
+  fault : Option String
+
+/-- a history of `Execute` calls on one interpreter with `MaxOps = m`: the state left by a call
+is the start state of the next one, whatever the call returned.  The list holds the state and
+result after each call, in order. -/
+def history (m : Nat) (s : State) : List Call → List (State × Res)
+  | [] => []
+  | c :: rest =>
+    let p := execute c.fuel m s c.input c.fault
+    p :: history m p.1 rest
+
+theorem history_length (m : Nat) (s : State) (calls : List Call) : (history m s calls).length = calls.length := by
+  induction calls generalizing s with
+  | nil => rfl
+  | cons c rest ih => simp [history, ih]
+
+/-- **any history of calls**: with a positive budget `N`, after every call of any sequence of
+`Execute` calls on the same interpreter the counter is at most `N + 1` — whatever the earlier
+calls returned (budget error or not), for all programs, faults and fuels. -/
+theorem numOps_cap_history (m : Nat) (hm : 0 < m) (s : State) (hs : s.numOps ≤ m + 1) (calls : List Call) :
+    ∀ p ∈ history m s calls, p.1.numOps ≤ m + 1 := by
+  induction calls generalizing s with
+  | nil => intro p hp; simp [history] at hp
+  | cons c rest ih =>
+    intro p hp
+    have h1 := numOps_cap_call c.fuel m s c.input c.fault hm hs
+    simp only [history, List.mem_cons] at hp
+    rcases hp with rfl | hp
+    · exact h1
+    · exact ih _ h1 p hp
+
+/-- … in particular for every history of a new interpreter -/
+theorem numOps_cap_history_new (m : Nat) (hm : 0 < m) (calls : List Call) :
+    ∀ p ∈ history m newInterpreter calls, p.1.numOps ≤ m + 1 :=
+  numOps_cap_history m hm newInterpreter (Nat.zero_le _) calls
+
+/-- non-vacuity: budget 3 and the calls `1 2 3 4 5`, `6`, `7 8` on a new interpreter.  Every
+call ends with the budget error and the counter is 4 after each of them (it was 4, 5, 6 before
+the repair); the three operands pushed before the budget ran out stay on the stack. -/
+def exCalls : List Call :=
+  [⟨50, [49, 32, 50, 32, 51, 32, 52, 32, 53], none⟩, ⟨50, [54], none⟩, ⟨50, [55, 32, 56], none⟩]
+
+example : (history 3 newInterpreter exCalls).map (fun p => (p.1.numOps, p.2)) =
+    [(4, .err .limit), (4, .err .limit), (4, .err .limit)] := by decide +kernel
+
+example : (history 3 newInterpreter exCalls).map (fun p => p.1.vm.stack) =
+    [[.int 3, .int 2, .int 1], [.int 3, .int 2, .int 1], [.int 3, .int 2, .int 1]] := by decide +kernel
+
+/-- a call that stays within the budget after one that did not: the counter does not move back
+(`numops_monotone`) and a history may also end without the budget error -/
+example : (history 3 newInterpreter [⟨50, [49, 32, 50], none⟩, ⟨50, [51, 32, 52], none⟩, ⟨50, [], none⟩]).map
+    (fun p => (p.1.numOps, p.2)) = [(2, .ok), (4, .err .limit), (4, .ok)] := by decide +kernel
 
 /-- the execution nesting counter is restored by every call and never exceeds 100 while it
 runs (`hiDepth` is the high-water mark) -/
@@ -115,5 +184,11 @@ theorem checkstart_rejects (fuel m : Nat) (s : State) (input : List UInt8)
 example : (execute 10 0 { newInterpreter with checkStart := true } [40, 97, 41] none).2 = .err .noPS := by
   have := (checkstart_rejects 9 0 { newInterpreter with checkStart := true } [40, 97, 41] rfl (by decide) (by decide)).1
   exact this
+
+#print axioms numops_monotone
+#print axioms numops_cap
+#print axioms numOps_cap_call
+#print axioms numOps_cap_history
+#print axioms numOps_cap_history_new
 
 end PsVerif.Props.C11
